@@ -11,7 +11,10 @@ import traceback
 
 VERIF = os.environ.get("VERIF_DIR", "/verif")
 REPO = os.environ.get("VERIF_REPO", "/repo")
-WORK = os.path.join(VERIF, ".work")
+_ALT = "" if os.path.realpath(REPO) == "/repo" else "alt_" + re.sub(r"\W+", "_", os.path.realpath(REPO))
+WORK = os.path.join(VERIF, ".work", _ALT) if _ALT else os.path.join(VERIF, ".work")
+# evidence describes /repo itself; runs against a scratch copy (VERIF_REPO=...) keep their output apart
+EVID = os.path.join(VERIF, "evidence") if not _ALT else os.path.join(WORK, "evidence")
 MODPATH = "github.com/panjf2000/gnet/v2"
 GOENV = dict(os.environ, GOFLAGS="-mod=mod", GOPROXY="off", GOSUMDB="off", GOTOOLCHAIN="local")
 
@@ -223,7 +226,7 @@ def _run_one(hname):
 
 def replay(prop, unit, hname, tape, idx, maxlen, cfg):
     """native replay of one tape; returns (verdict line, tape path)"""
-    rd = os.path.join(VERIF, "evidence", "replay")
+    rd = os.path.join(EVID, "replay")
     os.makedirs(rd, exist_ok=True)
     tp = os.path.join(rd, "%s-%s-%d.json" % (prop, hname, idx))
     json.dump({"property": prop, "unit": unit["name"], "harness": hname, "maxlen": str(maxlen), "cfg": cfg.get("vcfg", {}), "tape": tape}, open(tp, "w"), indent=1)
@@ -263,7 +266,7 @@ def check(prop, tier, only=None):
     spec = props.PROPS[prop]
     t_start = time.time()
     import glob
-    for f in glob.glob(os.path.join(VERIF, "evidence", "replay", prop + "-*.json")):
+    for f in glob.glob(os.path.join(EVID, "replay", prop + "-*.json")):
         os.unlink(f)
     seed = int(os.environ.get("VERIF_SEED", "0") or 0)
     known = [k for k in load_known() if k.get("property") == prop and k.get("status") == "open"]
@@ -433,8 +436,8 @@ def write_evidence(prop, tier, seed, spec, unit_meta, all_results, violations_ou
         "wall_s": round(wall, 2),
         "violations": len(violations_out),
     }
-    os.makedirs(os.path.join(VERIF, "evidence"), exist_ok=True)
-    json.dump(ev, open(os.path.join(VERIF, "evidence", prop + ".json"), "w"), indent=1, default=str)
+    os.makedirs(EVID, exist_ok=True)
+    json.dump(ev, open(os.path.join(EVID, prop + ".json"), "w"), indent=1, default=str)
 
 
 def _z3v():
